@@ -41,7 +41,7 @@ static vh::NamedCounter c_acq_ok("acquire_ok"), c_acq_null("acquire_null"), c_ct
     c_ctor_slept("ctor_slept"), c_dtor("destroyed"), c_dtor_expire("destroyed_by_expiry"), c_dtor_recycle("destroyed_by_recycler"),
     c_rel_plain("release_plain"), c_rel_recycle("release_recycle"), c_rel_moveout("release_moveout"), c_moved_out("moved_out_objects"),
     c_recycle_demoted("recycle_overlapped_by_other_recycler"), c_shared("acquired_while_held_by_other"), c_refused("refused_in_cooldown"),
-    c_fail_masked("failed_ctor_but_got_peer_object"), c_probe("cooldown_probe_ok"), c_borrow("via_borrow"), c_refacq("via_ref_acquire"),
+    c_fail_masked("failed_ctor_but_got_peer_object"), c_probe("cooldown_probe_ok"), c_cd_probe("scripted_cooldown_probe_ok"), c_borrow("via_borrow"), c_refacq("via_ref_acquire"),
     c_waited_recycler("recycler_waited_for_holders"), c_update("v2_update"), c_v2_recycle("v2_recycle"), c_longstall("long_stalls"),
     c_reacquired_after_expiry("constructed_again_after_destroy");
 
@@ -691,6 +691,63 @@ int main(int argc, char** argv) {
                 }
                 if (ok) c_probe.add();
             }
+        }
+        // scripted cool-down probe on a key nobody used: one failed construction, then an attempt every 10 ms with the
+        // same cool-down. Attempts inside the cool-down may be refused without calling the constructor; an attempt that
+        // starts more than cool-down + slack after the failure must call it again, however many refused attempts lie
+        // in between (a refusal must not renew the cool-down).
+        // (not for the list form: its "failed construction" - an empty list - is not represented the way the probe assumes)
+        if (g_nkeys < MAXKEYS && g_section != "list") {
+            const uint64_t C = 50 * 1000, PROBE_SLACK = 400 * 1000;
+            int k = g_nkeys;
+            auto& w = g_w[MAXW - 1];
+            auto attempt = [&](const Plan& pl, const char* how) -> int {       // 1 object, 0 refused without constructor, -1 constructor failed
+                auto ctor = [&]() -> Obj* { return construct(w, k, pl); };
+                auto c = before_acquire(w, k);
+                bool ok = false;
+                if (g_section == "ptr") {
+                    Obj* o = g_ptr->acquire(k, ctor, C);
+                    ok = after_acquire(w, k, pl, c, o, how);
+                    if (ok) { before_release(k, o->id); g_ptr->release(k); }
+                } else if (g_section == "list") {
+                    auto lctor = [&]() -> intrusive_list<Obj> { return intrusive_list<Obj>(construct(w, k, pl)); };
+                    auto& lst = g_list->acquire(k, lctor, C);
+                    Obj* o = lst.front();
+                    ok = after_acquire(w, k, pl, c, o, how);
+                    if (ok) { before_release(k, o->id); g_list->release(k); }
+                } else {
+                    auto b = g_v2->borrow(k, ctor, C);
+                    Obj* o = b ? &*b : nullptr;
+                    ok = after_acquire(w, k, pl, c, o, how);
+                    if (ok) before_release(k, o->id);
+                }
+                return ok ? 1 : w.ctor_called ? -1 : 0;
+            };
+            Plan bad; bad.fail = true;
+            Plan good;
+            uint64_t saved = g_cooldown;
+            g_cooldown = C;                                     // the generic oracle inside after_acquire() uses it
+            if (attempt(bad, "scripted cool-down probe: failing construction") == -1) {
+                uint64_t t_fail = vh::boottime_us();
+                int refused = 0;
+                for (;;) {
+                    thread_usleep(10 * 1000);
+                    vh::progress();
+                    uint64_t t = vh::boottime_us();
+                    int a = attempt(good, "scripted cool-down probe: retry");
+                    if (a == 1) { c_cd_probe.add(); break; }
+                    if (a == 0) refused++;
+                    if (a == 0 && t > t_fail + C + PROBE_SLACK) {
+                        vh::violation("cooldown/refusals-renew-the-cooldown:" + g_section,
+                                      "an attempt made long after the cool-down of a failed construction had passed was still refused without calling the constructor; "
+                                      "attempts were made every 10 ms in between",
+                                      vh::JObj().kv("cooldown_us", C).kv("attempt_us_after_failure", t - t_fail).kv("refused_attempts", refused).str());
+                        break;
+                    }
+                    if (t > t_fail + 5 * 1000 * 1000) { vh::inconclusive("cool-down probe did not finish in 5 s"); break; }
+                }
+            }
+            g_cooldown = saved;
         }
         g_teardown.store(true);
         delete g_ptr; delete g_list; delete g_v2;
